@@ -275,6 +275,18 @@ func genScale(dim string, thorough bool) {
 
 	}
 	if dim == "prefix" {
+		// ---- groups nested under fields: f:(x AND g:(y AND ...)) - whether or not such a query is accepted, it is answered quickly ----
+		for _, n := range ladder(chainExp) {
+			if n > 129 {
+				continue
+			}
+			for style := 0; style < 3; style++ {
+				emitQ(nestedFieldGroups(n, style), "", "src=scale;dim=nest")
+				if n <= 33 {
+					emitQ(nestedFieldGroups(n, style), "d", "src=scale;dim=nest")
+				}
+			}
+		}
 		// ---- stacked prefix operators, then a juxtaposed operand ----
 		for _, n := range ladder(chainExp) {
 			for _, op := range []string{"not", "must", "mustnot"} {
